@@ -4,6 +4,7 @@ import (
 	"bytes"
 	"encoding/json"
 	"fmt"
+	"math/rand"
 	"os"
 	"os/exec"
 	"path/filepath"
@@ -134,6 +135,32 @@ func C13(run *vf.Run) {
 		}
 	}
 	sort.Slice(uniq, func(i, j int) bool { return fmt.Sprint(uniq[i]) < fmt.Sprint(uniq[j]) })
+	// every history costs one process; beyond maxHist keep all histories of at most two WAFs and a seeded sample of the rest
+	if maxHist := 12000; len(uniq) > maxHist {
+		rng := rand.New(rand.NewSource(run.Seed))
+		var keep, rest [][][]any
+		for _, h := range uniq {
+			builds := 0
+			for _, op := range h {
+				if len(op) > 0 && op[0] == "build" {
+					builds++
+				}
+			}
+			if builds <= 2 {
+				keep = append(keep, h)
+			} else {
+				rest = append(rest, h)
+			}
+		}
+		rng.Shuffle(len(rest), func(i, j int) { rest[i], rest[j] = rest[j], rest[i] })
+		if len(keep) < maxHist {
+			keep = append(keep, rest[:min(len(rest), maxHist-len(keep))]...)
+		}
+		run.Logf("Memo.tla: %d histories enumerated, %d replayed (all with <= 2 WAFs, a seeded sample of the others)", len(uniq), len(keep))
+		run.Exhaustive = false
+		run.Assume(fmt.Sprintf("replay of histories with three WAFs is sampled (%d of %d); TLC itself explored all of them", len(keep), len(uniq)))
+		uniq = keep
+	}
 	dir, _ := os.MkdirTemp("", "verif-c13-")
 	defer os.RemoveAll(dir)
 	binMemo := filepath.Join(dir, "probe_memo")
